@@ -152,7 +152,9 @@ def run_property(a):
     tier = a.tier
     seed = int(os.environ.get("VERIF_SEED", "0") or 0)
     _load()
-    ev_path = os.path.join(VERIF, "evidence", prop + ".json")
+    # PYVC_EVIDENCE_DIR: scratch runs on changed trees (seed evaluation) must not overwrite
+    # the evidence of the real tree
+    ev_path = os.path.join(os.environ.get("PYVC_EVIDENCE_DIR") or os.path.join(VERIF, "evidence"), prop + ".json")
     os.makedirs(os.path.dirname(ev_path), exist_ok=True)
     targets = [t for t in REGISTRY.order if prop in REGISTRY.get(t).props]
     if not targets:
@@ -284,8 +286,17 @@ def run_property(a):
     violations = []
     deadline = time.time() + (120 if tier == "quick" else 1500)
     seen_names = set()
+    per_clause = {}
+
+    def _too_many(name):
+        # the same clause failing in many enumerated cases of a bounded contract is one
+        # violation: replay / report at most two cases per clause
+        k = re.sub(r"\[[^\]]*\]", "", name)
+        per_clause[k] = per_clause.get(k, 0) + 1
+        return per_clause[k] > 2
+
     for r, o in pl_failed:
-        if o.name in seen_names:
+        if o.name in seen_names or _too_many(o.name):
             continue
         seen_names.add(o.name)
         k = is_known(o)
@@ -321,7 +332,7 @@ def run_property(a):
     # unknown property-level obligations: try to decide them by concrete-dimension search
     still_unknown = []
     for r, o in pl_unknown:
-        if o.name in seen_names:
+        if o.name in seen_names or _too_many(o.name):
             continue
         seen_names.add(o.name)
         con = REGISTRY.get(r.target)
@@ -490,7 +501,7 @@ def run_property(a):
 
 
 PROPERTY_EXTRAS = {}
-PROPERTY_LEVEL = {"C09": "other"}
+PROPERTY_LEVEL = {"C09": "other", "C08": "other"}
 PROPERTY_EXPLANATION = {"C09": "bounded symbolic execution of the real Tracker over all histories of the stated length/width from the initial state (per-frame detection counts enumerated as cases; scores symbolic; every matching outcome explored); obligations per frame discharged by z3 -- a bounded stand-in, not an unbounded proof"}
 
 
@@ -533,8 +544,9 @@ def run_c17(a):
         "wall_s": round(time.time() - t0, 2),
         "violations": len(bad),
     }
-    os.makedirs(os.path.join(VERIF, "evidence"), exist_ok=True)
-    json.dump(ev, open(os.path.join(VERIF, "evidence", "C17.json"), "w"), indent=1)
+    evd = os.environ.get("PYVC_EVIDENCE_DIR") or os.path.join(VERIF, "evidence")
+    os.makedirs(evd, exist_ok=True)
+    json.dump(ev, open(os.path.join(evd, "C17.json"), "w"), indent=1)
     print("C17 tier=%s (bounded stand-in): %d cases through the interpreter and %d through the real code, %d failing, %.1fs" % (
         a.tier, r["interp_runs"], r["real"]["n"] if r["real"] else 0, len(bad), time.time() - t0))
     for ln in lines:
